@@ -394,7 +394,7 @@ fn directed(ctx: &Ctx) -> Vec<Case> {
 
 /// Rare-seed panics: key generation, one signature and its verification for many seeds.
 fn seed_sweep(ctx: &Ctx, rep: &mut Report) {
-    let n = u64::from(ctx.n(60_000, 1_500_000));
+    let n = u64::from(ctx.n(150_000, 3_000_000));
     let seed = ctx.seed;
     crate::engine::run_sweep(
         rep,
